@@ -284,19 +284,33 @@ func verifPumpHistory() {
 	}
 	cl.IdentifyEventChan <- ev
 	verifrt.Rest()
+	// start: plain; the channel was paused BEFORE this consumer subscribed; or the consumer is
+	// already at its RDY limit (RDY 1, one message outstanding)
+	start := verifrt.Choice("start", 3)
+	if start == 1 {
+		st.c.Pause()
+	}
 	cl.Channel = st.c
 	cl.State = stateSubscribed
 	cl.SubEventChan <- st.c
 	verifrt.Rest()
 	var held []*Message
 	closing := false
+	if start == 2 {
+		p.RDY(cl, [][]byte{[]byte("RDY"), []byte("1")})
+		m0 := verifMsg("p0", 1)
+		st.c.PutMessage(m0)
+		held = append(held, m0)
+		verifrt.Rest()
+		verifrt.Assert(cl.MessageCount == 1 && cl.InFlightCount == 1, "prefix:consumer-at-its-rdy-limit")
+	}
 	steps := verifrt.Bound("pump-history-steps", 3, 4)
 	seq := 0
 	for s := 0; s < steps; s++ {
 		sentBefore := cl.MessageCount
 		queuedBefore := st.c.Depth()
 		published := int64(0)
-		switch verifrt.Choice("event", 6) {
+		switch verifrt.Choice("event", 7) {
 		case 0: // RDY n
 			nrdy := []string{"0", "1", "2"}[verifrt.Choice("rdy", 3)]
 			p.RDY(cl, [][]byte{[]byte("RDY"), []byte(nrdy)})
@@ -325,6 +339,9 @@ func verifPumpHistory() {
 			st.c.Pause()
 		case 5:
 			st.c.UnPause()
+		case 6: // the channel is emptied: outstanding messages are gone, the subscription stays
+			st.c.Empty()
+			queuedBefore = 0
 		}
 		// state after the event, before the pump reacts (nothing else runs until Rest)
 		rdy, out := cl.ReadyCount, cl.InFlightCount
